@@ -876,18 +876,23 @@ class Arnoldi:
         approx_jac = self.__cached_matrix
         if approx_jac is not None and approx_jac.shape == jac.shape:
             dx_space, dres_space = numpy.empty((2, self.maxiter, len(res)), dtype=res.dtype)
+            x0 = x.copy()
+            res0 = res
             for i in range(self.maxiter):
                 try:
                     dx_space[i] = approx_dx = approx_jac.solve(res, **linargs)
                     dres_space[i] = jac @ approx_dx
                     w, (res2,), *_ = numpy.linalg.lstsq(dres_space[:i+1].T, res, rcond=None)
-                    resnorm = numpy.sqrt(res2)
                 except Exception as e:
                     log.warning('solution failed:', e)
                     break
                 x -= w @ dx_space[:i+1]
-                yield system.construct(arguments, x), resnorm
-                res -= w @ dres_space[:i+1]
+                # Evaluate the residual of the iterate itself rather than that
+                # predicted by the least squares problem: with a poor (nearly
+                # singular) cached matrix the search directions are huge and
+                # the prediction loses all accuracy to cancellation.
+                res = res0 - jac @ (x0 - x)
+                yield system.construct(arguments, x), numpy.linalg.norm(res)
 
         log.info(f'updating jacobian')
         self.__cached_matrix = jac
